@@ -77,7 +77,7 @@ class Ctx:
         self.labels.add(name)
 
 
-def _short(x, n=600):
+def _short(x, n=3000):
     try:
         s = x if isinstance(x, str) else json.dumps(x, default=repr)
     except Exception:
@@ -207,7 +207,8 @@ def evaluate(prop: Prop, leg: Leg, spec, stats: Stats, known: Known, suppressed=
         # hypothesis control-flow exceptions must propagate
         if type(e).__module__.startswith("hypothesis"):
             raise
-        ctx.fail("exception:%s@%s" % (type(e).__name__, biocantor_frame(e.__traceback__)), repr(e)[:300])
+        tb = " <- ".join("%s:%d:%s" % (os.path.basename(fr.filename), fr.lineno, fr.name) for fr in reversed(traceback.extract_tb(e.__traceback__)[-6:]))
+        ctx.fail("exception:%s@%s" % (type(e).__name__, biocantor_frame(e.__traceback__)), repr(e)[:200] + " TB: " + tb)
     stats.evaluations += 1
     stats.refused += ctx.refused
     for lab in ctx.labels:
